@@ -190,6 +190,30 @@ def bounded(ctx):
                     viol.append(dict(name="product_%s_%d" % (name, chain_len), what="%s chain of %d: assembling the reverse complements gives %s" % (
                         name, chain_len, "%r / %r" % (got[:1], gotr[:1]) if "product" not in (got[0], gotr[0]) or got[0] != gotr[0] else "a product that is not the reverse complement of the original product"),
                                      case=dict(enzyme=name, vector=vt, modules=mts)))
+            if chain_len == 1 and (name in sweep or ctx.tier != "quick"):
+                # records carrying an ambiguity letter (B becomes V on the other strand, R becomes Y ...): whatever the
+                # class says about one strand it says about the other
+                for role_, Cls_, text_ in (("module", Mod, mods[0]), ("vector", Vec, vtext)):
+                    ref_ = be.observe_entity(Cls_(CircularRecord(Seq(text_), id="x")))
+                    if ref_.get("valid") is not True:
+                        continue
+                    body_ = ref_["target"]
+                    at_ = (text_ + text_).upper().find(body_.upper())
+                    for off_ in (k + 1, len(body_) // 2, 0):           # inside the body, and the first overhang letter
+                        q_ = (at_ + off_) % len(text_)
+                        for code_ in "RYSWKMBDHVNrbn":
+                            evals += 1
+                            t2_ = text_[:q_] + code_ + text_[q_ + 1:]
+                            a_ = be.observe_entity(Cls_(CircularRecord(Seq(t2_), id="x")))
+                            b_ = be.observe_entity(Cls_(CircularRecord(Seq(gen.rc(t2_)), id="x")))
+                            distinct.add((name, role_, off_, code_))
+                            if a_.get("valid") != b_.get("valid"):
+                                viol.append(dict(name="ambiguity_%s_%s" % (role_, name), what="%s %s with the letter %r at offset %d of its target: valid=%r, its reverse complement valid=%r" % (
+                                    name, role_, code_, off_, a_.get("valid"), b_.get("valid")), case=dict(enzyme=name, record=t2_)))
+                            elif a_.get("valid") is True and (str(b_["overhang_start"]).upper() != gen.rc(str(a_["overhang_end"])).upper()
+                                                             or str(b_["overhang_end"]).upper() != gen.rc(str(a_["overhang_start"])).upper()):
+                                viol.append(dict(name="ambiguity_overhangs_%s_%s" % (role_, name), what="%s %s with the letter %r: overhangs of the reverse complement are not the exchanged reverse complements" % (
+                                    name, role_, code_), case=dict(enzyme=name, record=t2_)))
             if len(samples) < 2:
                 samples.append(dict(enzyme=name, chain=chain_len))
     # the recorded finding, deterministically (a fixed BsaI chain of two whose downstream overhangs are AACG / CGTT)
